@@ -231,6 +231,8 @@ def run_sequence(ctx, seed: dict, ops: list, digests: dict) -> None:
             elif op == "insert":
                 uniq += 1
                 text = f"permit tcp host 10.250.0.{uniq} any eq {2000 + uniq}"
+                if acl.platform == "ios" and uniq % 2:
+                    text += f" {3000 + uniq}"  # a multi-port entry put at the top level through the list API
                 pred = model.insert(0, _sem_to_item(reader.read_ace(text)))
                 acl.insert(0, Ace(text, platform=acl.platform, version=str(acl.version), port_nr=acl.port_nr,
                                   protocol_nr=acl.protocol_nr))
